@@ -2471,7 +2471,7 @@ class Trimesh(Geometry3D):
 
         # exit early if we've been passed an identity matrix
         # np.allclose is surprisingly slow so do this test
-        elif util.allclose(matrix, _IDENTITY4, 1e-8):
+        elif np.array_equal(matrix, _IDENTITY4):
             return self
 
         # values are kept across the transform below, so make sure
